@@ -46,7 +46,7 @@ __wrap_timerfd_settime(int fd, int flags, const struct itimerspec *n, struct iti
 }
 
 /* ------------------------------------------------------------------ case description */
-enum { H_ARRIVE = 1, H_CLOSE, H_FIRE, H_ENABLE, H_DRAIN };
+enum { H_ARRIVE = 1, H_CLOSE, H_FIRE, H_ENABLE, H_DRAIN, H_RESTART };
 typedef struct hstep_s { uint8_t op, k; } hstep_t;
 #define MAXH 12
 enum { POL_CONTINUE = 0, POL_STOP_AT_1, POL_STOP_AT_2, POL_DESTROY_AT_1, POL_DESTROY_AT_2, POL_NONE_AT_1_THEN_ENABLE, POL_NONE_AT_2_THEN_ENABLE, POL_N };
@@ -80,7 +80,8 @@ static uint8_t bufmem[64];
 static int sk[2];		/* sk[0] = task side, sk[1] = peer */
 static int peer_open;
 static int arrived;		/* bytes written by the peer so far (recv) / bytes read by the peer (send) */
-static int reported;		/* sum of transfered_size given to callbacks */
+static int reported;		/* sum of transfered_size given to callbacks (of the current run) */
+static int run_base;		/* buffer offset at which the current run of the task was started */
 static int ncb, n_eof_cb, n_timeout_cb, fires_armed;
 static int task_dead;		/* stop/destroy returned (no further callback allowed) */
 static int task_destroyed;
@@ -109,6 +110,7 @@ case_desc(char *b, size_t n) {
 		case H_ARRIVE: o += (size_t)snprintf(b + o, n - o, " +%d", C.h[i].k); break;
 		case H_CLOSE: o += (size_t)snprintf(b + o, n - o, " close"); break;
 		case H_FIRE: o += (size_t)snprintf(b + o, n - o, " fire"); break;
+		case H_RESTART: o += (size_t)snprintf(b + o, n - o, " stop+start"); break;
 		case H_ENABLE: o += (size_t)snprintf(b + o, n - o, " enable"); break;
 		case H_DRAIN: o += (size_t)snprintf(b + o, n - o, " drain%d", C.h[i].k); break;
 		}
@@ -161,8 +163,8 @@ task_cb(tp_task_p tptask, int error, io_buf_p b, uint32_t eof, size_t transfered
 		cfail("wrong-task-args", "callback got another task/buffer");
 	reported += (int)transfered_size;
 	check_buffer("in callback");
-	if (reported != (int)buf.offset - C.off)
-		cfail("transferred-count", "sum of transferred sizes %d but cursor advanced by %d", reported, (int)buf.offset - C.off);
+	if (reported != (int)buf.offset - run_base)
+		cfail("transferred-count", "sum of transferred sizes %d but cursor advanced by %d%s", reported, (int)buf.offset - run_base, (run_base != C.off) ? " since the task was started again" : "");
 	if (0 != error) {
 		if (ETIMEDOUT == error) {
 			n_timeout_cb ++;
@@ -254,6 +256,15 @@ apply(const hstep_t *s) {
 		if (timer_armed_now())
 			fires_armed ++;
 		break;
+	case H_RESTART: /* the owner (on the pool thread, between events) stops the task and starts it again over the rest
+			 * of the window; what the abandoned run took in without reporting does not belong to the new run */
+		if (!task_started || task_dead || task_paused || NULL == task || 0 == buf.transfer_size)
+			break;
+		tp_task_stop(task);
+		run_base = (int)buf.offset; reported = 0;
+		if (0 != tp_task_start_ex(1, task, C.send ? TP_EV_WRITE : TP_EV_READ, C.evflags, C.timeout ? TIMEOUT_MS : 0, 0, &buf, task_cb))
+			cfail("start-refused", "tp_task_start_ex of a stopped task failed");
+		break;
 	case H_ENABLE:
 		if (task_paused && !task_dead) {
 			task_paused = 0;
@@ -317,7 +328,7 @@ run_case(void) {
 	if (0 != tp_create(&s, &tp)) { vh_fail("harness", "tp_create"); return; }
 	t0 = tp_thread_get(tp, 0);
 	if (0 != socketpair(AF_UNIX, SOCK_STREAM | SOCK_NONBLOCK, 0, sk)) { vh_fail("harness", "socketpair"); return; }
-	peer_open = 1; arrived = 0; reported = 0; ncb = n_eof_cb = n_timeout_cb = fires_armed = 0;
+	peer_open = 1; arrived = 0; reported = 0; run_base = C.off; ncb = n_eof_cb = n_timeout_cb = fires_armed = 0;
 	task_dead = task_destroyed = task_paused = task_started = 0; task = NULL; in_start = paused_unscheduled = 0;
 	cur_step = 0; settle_left = 0; shutdown_sent = 0; rec_tfd_last = -1;
 	memset(bufmem, CANARY, sizeof(bufmem));
@@ -390,6 +401,7 @@ emit_case(void) {
 static void
 gen_hist(int left, int used_close, int used_fire, int used_enable) {
 	int k;
+	static int used_restart = 0;
 
 	if (C.nh >= MAXH - 1)
 		return;
@@ -414,6 +426,13 @@ gen_hist(int left, int used_close, int used_fire, int used_enable) {
 	if ((POL_NONE_AT_1_THEN_ENABLE == C.pol || POL_NONE_AT_2_THEN_ENABLE == C.pol) && !used_enable && C.nh > 0) {
 		C.h[C.nh].op = H_ENABLE; C.h[C.nh].k = 0; C.nh ++;
 		gen_hist(left, used_close, used_fire, 1);
+		C.nh --;
+	}
+	if (POL_CONTINUE == C.pol && !used_restart && C.nh > 0 && !C.used_zero) {
+		C.h[C.nh].op = H_RESTART; C.h[C.nh].k = 0; C.nh ++;
+		used_restart = 1;
+		gen_hist(left, used_close, used_fire, used_enable);
+		used_restart = 0;
 		C.nh --;
 	}
 	for (k = 1; k <= left; k ++) {
